@@ -40,7 +40,7 @@ def main():
         if "--suite" in sys.argv:
             # deselected: test_find_root_dir fails in any checkout below /tmp (environment), and
             # test_nnsp_compute_nnps_distance_1 is randomly flaky on the unchanged code (unseeded 0/0)
-            rc, out = sh("/venv/bin/python -m pytest -q -p no:cacheprovider --no-cov -q "
+            rc, out = sh("/venv/bin/python -m pytest -q -p no:cacheprovider --no-cov "
                          "--deselect tests/menelaus/utils/test_utils.py::test_find_root_dir "
                          "--deselect tests/menelaus/partitioners/test_nn_space_partitioner.py::test_nnsp_compute_nnps_distance_1 2>&1 | tail -15",
                          cwd=wt, timeout=1800)
